@@ -313,6 +313,13 @@ def check_path_search(rep: Report, prog: Program) -> None:
     fn = fi.node
     params = fi.params()
     start, end = params[0], params[1]
+    base_start, base_end = start, end
+    # after `exponent, s, e = _reduce_dimension(start, end)` the search goes on with s and e (the parameters rebound, or new names)
+    for n in ast.walk(fn):
+        if isinstance(n, ast.Assign) and isinstance(n.value, ast.Call) and ast.unparse(n.value.func) == "_reduce_dimension" \
+                and isinstance(n.targets[0], ast.Tuple) and len(n.targets[0].elts) == 3 and all(isinstance(x, ast.Name) for x in n.targets[0].elts) \
+                and [ast.unparse(a) for a in n.value.args] == [start, end]:
+            start, end = n.targets[0].elts[1].id, n.targets[0].elts[2].id  # type: ignore[attr-defined]
     loops = [n for n in ast.walk(fn) if isinstance(n, ast.For) and isinstance(n.iter, ast.Call)
              and isinstance(n.iter.func, ast.Attribute) and n.iter.func.attr == "items"
              and isinstance(n.iter.func.value, ast.Subscript) and ast.unparse(n.iter.func.value.value) == "_ratios"]
@@ -376,7 +383,7 @@ def check_path_search(rep: Report, prog: Program) -> None:
     rep.check("R05.4", "_find_path_recursive:direct-hit", okd, "a direct neighbour equal to the target does not return the single "
               "hop (scale, offset, end)", fi.where(direct[0] if direct else lp))
     # base case: identity hop
-    base = [n for n in fn.body if isinstance(n, ast.If) and ast.unparse(n.test).replace(" ", "") in (f"{start}is{end}", f"{start}=={end}")]
+    base = [n for n in fn.body if isinstance(n, ast.If) and ast.unparse(n.test).replace(" ", "") in (f"{base_start}is{base_end}", f"{base_start}=={base_end}")]
     okb = bool(base)
     for b in base:
         r = b.body[-1] if b.body else None
